@@ -47,6 +47,9 @@ struct ScriptIter {
     lens: Vec<usize>, len_calls: Cell<usize>,
     hints: Vec<(usize, Option<usize>)>, hint_calls: Cell<usize>,
     items: Vec<Option<T>>, total: usize, next_calls: usize, panic_at: Option<usize>,
+    /// a NON-FUSED source: what the iterator would yield if it were polled again after its first `None`
+    /// (created only when that happens; these values are not part of the input sequence)
+    late: Vec<(u32, u32)>,
 }
 fn nth_or_last<X: Copy>(v: &[X], i: usize, d: X) -> X { if i < v.len() { v[i] } else if let Some(x) = v.last() { *x } else { d } }
 impl Iterator for ScriptIter {
@@ -55,7 +58,9 @@ impl Iterator for ScriptIter {
         let i = self.next_calls;
         self.next_calls += 1;
         if Some(i) == self.panic_at { panic!("scripted iterator panic"); }
-        if i < self.items.len() { self.items[i].take() } else { None }
+        if i < self.items.len() { self.items[i].take() }
+        else if i == self.items.len() { None }
+        else { let j = i - self.items.len() - 1; if j < self.late.len() { Some(T::new(self.late[j].0, self.late[j].1)) } else { None } }
     }
     fn size_hint(&self) -> (usize, Option<usize>) {
         let i = self.hint_calls.get();
@@ -304,7 +309,7 @@ fn run_op(w: &mut World, f: &[&str]) -> St {
             w.slots[d] = s;
             St::Ok(String::new())
         }
-        "iter" if n == 8 => {
+        "iter" if n == 8 || (n == 9 && f[8].starts_with("late=")) => {
             let d = idx!(f[1]);
             if !w.is_empty(d) { bad!(); }
             let hdr = if f[3] == "-" { None } else { match p_item(f[3]) { Some(x) => Some(x), None => bad!() } };
@@ -314,9 +319,10 @@ fn run_op(w: &mut World, f: &[&str]) -> St {
             let pan = match f[7].strip_prefix("panic=") { Some("-") => None, Some(x) => match parse_u(x) { Some(k) => Some(k), None => bad!() }, None => bad!() };
             if !matches!(f[2], "hsFromIter" | "thinFromIter" | "fromIter" | "uniqueFromIter") { bad!(); }
             if matches!(f[2], "hsFromIter" | "thinFromIter") && hdr.is_none() { bad!(); }
+            let late = if n == 9 { match p_items(&f[8][5..]) { Some(x) => x, None => bad!() } } else { Vec::new() };
             let its: Vec<Option<T>> = unrecorded(|| mk_items(&items).into_iter().map(Some).collect());
             let total = its.len();
-            let it = ScriptIter { lens, len_calls: Cell::new(0), hints, hint_calls: Cell::new(0), items: its, total, next_calls: 0, panic_at: pan };
+            let it = ScriptIter { lens, len_calls: Cell::new(0), hints, hint_calls: Cell::new(0), items: its, total, next_calls: 0, panic_at: pan, late };
             let s = lib(|| match f[2] {
                 "hsFromIter" => { let (hi, hv) = hdr.unwrap(); AH(Arc::from_header_and_iter(T::new(hi, hv), it)) }
                 "thinFromIter" => { let (hi, hv) = hdr.unwrap(); Th(ThinArc::from_header_and_iter(T::new(hi, hv), it)) }
